@@ -26,6 +26,7 @@ import (
 	"github.com/tikv/client-go/v2/tikv"
 	"github.com/tikv/client-go/v2/tikvrpc"
 	"github.com/tikv/client-go/v2/util/async"
+	"github.com/tikv/client-go/v2/util/codec"
 	"github.com/tikv/pd/client/constants"
 )
 
@@ -36,15 +37,62 @@ type caseT struct {
 	Ops      [][]json.RawMessage `json:"ops"`
 	End      string              `json:"end"`
 	SettleMs int                 `json:"settle_ms"`
+	// [[i, key]]: split at key right before the i-th (1-based) Flush RPC of the case reaches the store
+	RPCSplits [][]json.RawMessage `json:"rpc_splits"`
+}
+
+type flushRec struct {
+	Gen  uint64      `json:"gen"`
+	Muts [][2]string `json:"muts"`
 }
 
 type obj = map[string]any
 
 // clientWrapper mirrors unistoreClientWrapper of /repo/integration_tests/async_commit_test.go.
-type clientWrapper struct{ *unistore.RPCClient }
+type clientWrapper struct {
+	*unistore.RPCClient
+	mu       sync.Mutex
+	cluster  *unistore.Cluster
+	flushes  []flushRec
+	nFlush   int
+	rpcSplit map[int][]byte
+	bounds   map[string]bool
+}
+
+// splitAt splits the region containing key at key (no-op if key is already a region start); c.mu held
+func (c *clientWrapper) splitAt(key []byte) {
+	if c.bounds[string(key)] {
+		return
+	}
+	c.bounds[string(key)] = true
+	r, _, _, _ := c.cluster.GetRegionByKey(codec.EncodeBytes(nil, key))
+	if r == nil {
+		panic("split: no region for key " + hx(key))
+	}
+	nid, pid := c.cluster.AllocID(), c.cluster.AllocID()
+	c.cluster.Split(r.Id, nid, key, []uint64{pid}, pid)
+}
+
+func (c *clientWrapper) SendRequest(ctx context.Context, addr string, req *tikvrpc.Request, timeout time.Duration) (*tikvrpc.Response, error) {
+	if req.Type == tikvrpc.CmdFlush {
+		fr := req.Flush()
+		rec := flushRec{Gen: fr.Generation}
+		for _, m := range fr.Mutations {
+			rec.Muts = append(rec.Muts, [2]string{hx(m.Key), hx(m.Value)})
+		}
+		c.mu.Lock()
+		c.flushes = append(c.flushes, rec)
+		c.nFlush++
+		if k, ok := c.rpcSplit[c.nFlush]; ok {
+			c.splitAt(k)
+		}
+		c.mu.Unlock()
+	}
+	return c.RPCClient.SendRequest(ctx, addr, req, timeout)
+}
 
 func (c *clientWrapper) SendRequestAsync(ctx context.Context, addr string, req *tikvrpc.Request, cb async.Callback[*tikvrpc.Response]) {
-	go func() { cb.Schedule(c.RPCClient.SendRequest(ctx, addr, req, tikv.ReadTimeoutShort)) }()
+	go func() { cb.Schedule(c.SendRequest(ctx, addr, req, tikv.ReadTimeoutShort)) }()
 }
 func (c *clientWrapper) SetEventListener(tikv.ClientEventListener) {}
 
@@ -74,10 +122,10 @@ func rawStr(r json.RawMessage) string {
 
 // newStore builds a fresh unistore-backed KVStore (as NewTestUniStore does) with the
 // key space pre-split at the given (sorted) user keys.
-func newStore(splits [][]byte) (*tikv.KVStore, error) {
+func newStore(splits [][]byte) (*tikv.KVStore, *clientWrapper, error) {
 	client, pdClient, cluster, err := unistore.New("", nil, constants.NullKeyspaceID, nil)
 	if err != nil {
-		return nil, err
+		return nil, nil, err
 	}
 	_, _, regionID := unistore.BootstrapWithSingleStore(cluster)
 	for _, k := range splits { // ascending: always split the right-most region
@@ -85,7 +133,12 @@ func newStore(splits [][]byte) (*tikv.KVStore, error) {
 		cluster.Split(regionID, newRegion, k, []uint64{newPeer}, newPeer)
 		regionID = newRegion
 	}
-	return tikv.NewTestTiKVStore(&clientWrapper{client}, pdClient, nil, nil, 0)
+	w := &clientWrapper{RPCClient: client, cluster: cluster, rpcSplit: map[int][]byte{}, bounds: map[string]bool{}}
+	for _, k := range splits {
+		w.bounds[string(k)] = true
+	}
+	store, err := tikv.NewTestTiKVStore(w, pdClient, nil, nil, 0)
+	return store, w, err
 }
 
 // KVStore.Close blocks ~5 s after every pipelined txn: the async resolve task sleeps
@@ -178,9 +231,16 @@ func runCase(c *caseT) (out obj) {
 	}
 	sort.Slice(splits, func(i, j int) bool { return bytes.Compare(splits[i], splits[j]) < 0 })
 
-	store, err := newStore(splits)
+	store, wrap, err := newStore(splits)
 	if err != nil {
 		panic(fmt.Sprintf("newStore: %v", err))
+	}
+	for _, e := range c.RPCSplits {
+		var i int
+		if err := json.Unmarshal(e[0], &i); err != nil {
+			panic(fmt.Sprintf("rpc_splits index: %v", err))
+		}
+		wrap.rpcSplit[i] = unhex(rawStr(e[1]))
 	}
 	defer closeLater(store)
 	_, n, err := scanLocks(store)
@@ -265,6 +325,11 @@ func runCase(c *caseT) (out obj) {
 				err = txn.GetMemBuffer().FlushWait()
 			}
 			r["flushed"], r["err"] = flushed, errv(err)
+		case "split":
+			wrap.mu.Lock()
+			wrap.splitAt(unhex(rawStr(op[1])))
+			wrap.mu.Unlock()
+			r["err"] = nil
 		default:
 			panic("unknown op " + name)
 		}
@@ -338,6 +403,15 @@ func runCase(c *caseT) (out obj) {
 		}
 	}
 	out["final"] = final
+	wrap.mu.Lock()
+	out["flushes"] = append([]flushRec{}, wrap.flushes...)
+	regs := []string{}
+	for k := range wrap.bounds {
+		regs = append(regs, hx([]byte(k)))
+	}
+	sort.Strings(regs)
+	out["region_splits"] = regs
+	wrap.mu.Unlock()
 	if len(finalErrs) > 0 {
 		out["final_errs"] = finalErrs
 	}
